@@ -3,6 +3,7 @@
 package remoting
 
 import (
+	"context"
 	"encoding/binary"
 	"errors"
 	"io"
@@ -360,5 +361,86 @@ func VH_C13_handshake_total() {
 		vrtAssert(h.AdvertiseAddr == "keep", "caller-untouched-on-error")
 	} else {
 		vrtReach("handshake-ok")
+	}
+}
+
+// ---------------------------------------------------------------------------
+// C14 sender side
+
+type vhLiaison struct{ vivid.ActorLiaison }
+
+func (vhLiaison) Logger() log.Logger { return log.GetDefault() }
+
+// vhFailConn fails its first `fails` writes.
+type vhFailConn struct {
+	vhConn
+	fails int
+}
+
+func (c *vhFailConn) Write(p []byte) (int, error) {
+	if c.fails > 0 {
+		c.fails--
+		return 0, errors.New("broken pipe")
+	}
+	return c.vhConn.Write(p)
+}
+
+// vhSleeps counts time.Sleep calls observed natively through the clock: the
+// engine records them in its stub; natively the harness measures elapsed time.
+func vhNewSender(limit int, conn net.Conn) (*Mailbox, *vhHandler) {
+	h := &vhHandler{}
+	opts := vivid.NewActorSystemRemotingOptions()
+	opts.ReconnectLimit = limit
+	m := newMailbox(context.Background(), "127.0.0.1:1", vhFrameCodec{}, h, vhLiaison{}, &vhRef{"l:1", "/@remoting"}, &vhStream{}, opts)
+	if conn != nil {
+		m.connection = &tcpConnectionActor{client: true, conn: conn, codec: vhFrameCodec{}, envelopHandler: h, advertiseAddr: "127.0.0.1:1"}
+	}
+	return m, h
+}
+
+// VH_C14_send_faults: Enqueue on a connection whose first `fails` writes fail
+// and whose re-dial is refused, for every reconnect limit 0..2.
+func VH_C14_send_faults() {
+	limit := vrtChoose(3)
+	fails := vrtChoose(3)
+	conn := &vhFailConn{vhConn: vhConn{cut: -1}, fails: fails}
+	m, h := vhNewSender(limit, conn)
+	body := []byte{7, vrtUint8()}
+	vrtAssume(body[1] != 0xEE)
+	env := &vhEnv{sender: &vhRef{"s:1", "/s"}, receiver: &vhRef{"127.0.0.1:1", "/r"}, msg: &vhBody{B: body}}
+	vrtSleepReset()
+	m.Enqueue(env)
+	slept := vrtSlept()
+	wrote := len(conn.written)
+	failed := len(h.failed)
+	vrtAssert(wrote <= 1, "frame-written-at-most-once")
+	vrtAssert(failed <= 1, "dead-lettered-at-most-once")
+	vrtAssert(wrote+failed == 1, "written-xor-dead-lettered")
+	if fails == 0 {
+		vrtAssert(wrote == 1 && failed == 0, "healthy-connection-writes")
+		want, err := m.encodeEnvelopWithLength(env)
+		vrtAssert(err == nil && len(conn.written[0]) == len(want), "frame-is-length-prefixed-envelope")
+		for i := range want {
+			vrtAssert(conn.written[0][i] == want[i], "frame-is-length-prefixed-envelope")
+		}
+		vrtReach("written")
+	} else {
+		// the connection is dropped after the failed write and the re-dial is refused
+		vrtAssert(failed == 1 && wrote == 0, "unwritable-message-is-dead-lettered")
+		vrtReach("dead-lettered")
+	}
+	// recovery: a later message over a healthy connection is written
+	good := &vhFailConn{vhConn: vhConn{cut: -1}}
+	m.connection = &tcpConnectionActor{client: true, conn: good, codec: vhFrameCodec{}, envelopHandler: h}
+	m.Enqueue(env)
+	vrtAssert(len(good.written) == 1, "recovers-after-failure")
+	// encode failure: dead letter, no retry
+	before := len(h.failed)
+	m.Enqueue(&vhEnv{sender: &vhRef{"s:1", "/s"}, receiver: &vhRef{"127.0.0.1:1", "/r"}, msg: "not-encodable"})
+	vrtAssert(len(h.failed) == before+1 && len(good.written) == 1, "encode-failure-dead-letters-without-retry")
+	// Tell must not put the caller to sleep while delivery is retried
+	if fails > 0 && limit > 0 {
+		vrtReach("retried")
+		vrtAssert(!slept, "caller-never-sleeps")
 	}
 }
